@@ -213,5 +213,8 @@ pub fn initial_files() -> Vec<(&'static str, String)> {
         ("src/a/x.ts", render_source(&[f(1, 0, vec![Sel::Scalar(1), Sel::Scalar(2)])])),
         ("src/ab/x.ts", render_source(&[f(2, 0, vec![Sel::Scalar(1)])])),
         ("src/a/notes.md", "# notes\nnothing to see\n".to_string()),
+        // not under the project root (not compiled, not watched): material for moves into the tree
+        ("outside/n.tsx", render_source(&[f(2, 4, vec![Sel::Scalar(0)])])),
+        ("outside/d/m.ts", render_source(&[f(1, 4, vec![Sel::Scalar(0), Sel::Linked(1, vec![Sel::Scalar(1)])])])),
     ]
 }
